@@ -29,6 +29,8 @@ use std::time::{Duration, SystemTime, UNIX_EPOCH};
 pub const PTTL_NO_EXPIRE: &[u8] = b"-1";
 pub const PTTL_KEY_NOT_FOUND: &[u8] = b"-2";
 pub const RESTORE_NO_EXPIRE: &[u8] = b"0";
+const PTTL_LESS_THAN_ONE_MS: &[u8] = b"0";
+const RESTORE_MIN_EXPIRE: &[u8] = b"1";
 const BUSYKEY_ERROR: &[u8] = b"BUSYKEY";
 
 pub fn pttl_to_restore_expire_time(pttl: Vec<u8>) -> Vec<u8> {
@@ -37,6 +39,11 @@ pub fn pttl_to_restore_expire_time(pttl: Vec<u8>) -> Vec<u8> {
         // Reuse this vector
         expire_time.clear();
         expire_time.extend_from_slice(RESTORE_NO_EXPIRE)
+    } else if expire_time == PTTL_LESS_THAN_ONE_MS {
+        // PTTL returns 0 when less than one millisecond is left,
+        // but RESTORE treats 0 as no expire.
+        expire_time.clear();
+        expire_time.extend_from_slice(RESTORE_MIN_EXPIRE)
     }
     expire_time
 }
